@@ -483,9 +483,21 @@ def run_R(case):
         viol.append({"clause": "refitted_object_document_differs_from_fresh_fit", "key": key0,
                      "detail": f"top-level keys differing: {sorted(k for k in a if a.get(k) != b.get(k))}"})
     loaded = type(m).from_json(doc)
+    # ... and a model that came back from STORAGE (fitted on the first meter) and is then fitted on the second one
+    stored_then_refitted = None
+    if fam != "caltrack":
+        try:
+            first = c02.fit(fam, c02.new_model(fam), c02.make_baseline(fam, fa))
+            stored_then_refitted = c02.fit(fam, type(first).from_json(first.to_json()), c02.make_baseline(fam, fb))
+            if not same_doc(stored_then_refitted.to_json(), doc_fresh):
+                a, b = json.loads(stored_then_refitted.to_json()), json.loads(doc_fresh)
+                viol.append({"clause": "refitted_object_document_differs_from_fresh_fit", "key": dict(key0, object="loaded_from_storage"),
+                             "detail": f"top-level keys differing: {sorted(k for k in a if a.get(k) != b.get(k))}"})
+        except Exception as exc:
+            viol.append({"clause": "refit_of_loaded_model_raises", "key": dict(key0, exc=type(exc).__name__), "detail": f"{type(exc).__name__}: {str(exc)[:200]}"})
     for sn, d in sets:
         outs = {}
-        for who, obj in (("refitted", m), ("loaded", loaded), ("fresh", fresh)):
+        for who, obj in (("refitted", m), ("loaded", loaded), ("fresh", fresh)) + ((("stored_then_refitted", stored_then_refitted),) if stored_then_refitted is not None else ()):
             try:
                 outs[who] = F.fp(c02.predict(fam, obj, d)["predicted"].to_numpy(float))
             except Exception as exc:
@@ -496,7 +508,10 @@ def run_R(case):
         if outs["refitted"] != outs["fresh"]:
             viol.append({"clause": "refitted_object_predicts_unlike_fresh_fit", "key": key0,
                          "detail": f"predict({sn}) {outs['refitted']} vs fresh object fitted on the same data {outs['fresh']}"})
-    return {"behaviour": [fam, "refit", len(viol)], "violations": viol, "stats": {"fits": 3}}
+        if "stored_then_refitted" in outs and outs["stored_then_refitted"] != outs["fresh"]:
+            viol.append({"clause": "refitted_object_predicts_unlike_fresh_fit", "key": dict(key0, object="loaded_from_storage"),
+                         "detail": f"predict({sn}) {outs['stored_then_refitted']} vs fresh object fitted on the same data {outs['fresh']}"})
+    return {"behaviour": [fam, "refit", len(viol)], "violations": viol, "stats": {"fits": 5}}
 
 
 def run_case(case):
